@@ -114,9 +114,19 @@ def r3_double_spend(ctx):
     b = ctx.body(AP + "load_relevant_coins", r)
     IN = "elem(elem($2).inputs)"
     ins = [(bi, e) for bi, e in q.call_exprs(b, "HashSet::insert", "BTreeSet::insert") if sig(e[2][1]) == IN]
-    r.check(len(ins) == 1, "gate", "every input is inserted into the `seen` set", "no/many duplicate-input gates: %d" % len(ins))
     oks = [bb for bb, e in q.result_blocks(b)["Ok"]]
     r.anchor(oks, "Ok result")
+    if not ins:
+        via = [x for x in q.effect_sites(ctx.prog, b, "HashSet::insert", "BTreeSet::insert") if x[1] == "closure"]
+        if len(via) == 1 and all(b.dominates(via[0][0], o_) for o_ in oks):
+            # `inputs.try_for_each(|i| if seen.insert(i) { Ok(()) } else { Err(..) })?`: the gate exists and lies on every path to Ok; its failure must not reach Ok
+            vb, _, vc = via[0]
+            ve = b.rec_call(b.term(vb), vb)
+            f = force(b, {ve: V(1)})
+            r.check(not any(o_ in f.reach_from(vb) for o_ in oks), "gate", "a failing duplicate-input gate (in an adapter closure) cannot reach Ok", "the adapter running the duplicate-input gate can fail and still reach Ok", b.where(vb))
+            r.undecided("gate/closure", "the duplicate-input gate is evaluated inside a closure handed to an iterator adapter: its coverage of every input is not decided", b.where(vb))
+            return
+    r.check(len(ins) == 1, "gate", "every input is inserted into the `seen` set", "no/many duplicate-input gates: %d" % len(ins))
     if not ins:
         return
     gb, ge = ins[0]
@@ -237,8 +247,13 @@ def r5_effects(ctx):
     CID = "CoinID::new(Transaction::hash_nosigs(%s), (elem(Iterator::enumerate(%s.outputs)).0 as u8))" % (EL, EL)
     ins = [(bi, e) for bi, e in q.call_exprs(b, "CoinMapping::insert_coin")]
     r.check(len(ins) == 1, "outputs/insert", "one insert site", "%d insert sites" % len(ins))
+    OUTSRC = "Iterator::enumerate(%s.outputs)" % EL
+    RNG = "Range::Range{start: 0, end: Vec::len(%s.outputs)}" % EL          # `for i in 0..tx.outputs.len()`: the same indices
+    if not any(sig(l[3]) == OUTSRC for l in loops) and any(sig(l[3]) == RNG for l in loops):
+        OUTSRC = RNG
+        CID = "CoinID::new(Transaction::hash_nosigs(%s), (elem(%s) as u8))" % (EL, RNG)
     for bi, e in ins:
-        o, i = enclosing(bi, "Iterator::enumerate(%s.outputs)" % EL)
+        o, i = enclosing(bi, OUTSRC)
         r.check(o is not None and i is not None, "outputs/in-loops", "inside (all transactions) × (all output indices)", "the insert is not inside the loops over all transactions and all of their outputs", b.where(bi))
         r.check(sig(e[2][1]) == CID, "outputs/id", "id = CoinID::new(txhash, i)", "id = %s" % sig(e[2][1]), b.where(bi))
         r.check(sig(e[2][2]) == "try(HashMap::get($3, %s))" % CID, "outputs/data", "data = relevant_coins[id]", "data = %s" % sig(e[2][2])[:160], b.where(bi))
@@ -253,7 +268,15 @@ def r5_effects(ctx):
             wo = b.reachable(entry, removed=[x[0] for x in g])
             r.check(not any(l_ in wo for l_ in i[2]), "outputs/every-index", "every output index is looked up", "an output index can be skipped", b.where(bi))
     rem = [(bi, e) for bi, e in q.call_exprs(b, "CoinMapping::remove_coin")]
-    r.check(len(rem) == 1, "inputs/remove", "one remove site", "%d remove sites" % len(rem))
+    if not rem:
+        via = [x for x in q.effect_sites(ctx.prog, b, "CoinMapping::remove_coin") if x[1] == "closure"]
+        if len(via) == 1 and all(b.dominates(via[0][0], o_) for o_ in oks):
+            r.undecided("inputs/remove", "the inputs are removed by a closure handed to an iterator adapter (executed on every path to Ok): which inputs it visits is not decided", b.where(via[0][0]))
+            rem = None
+    if rem is None:
+        rem = []
+    else:
+        r.check(len(rem) == 1, "inputs/remove", "one remove site", "%d remove sites" % len(rem))
     for bi, e in rem:
         o, i = enclosing(bi, "%s.inputs" % EL)
         r.check(o is not None and i is not None, "inputs/in-loops", "inside (all transactions) × (all inputs)", "the remove is not inside the loops over all transactions and all of their inputs", b.where(bi))
@@ -281,7 +304,8 @@ def r5_effects(ctx):
     r.check(len(rr) == 1 and sig(q.novers(dict(rr[0][3])["0"])) == "next_state", "result", "returns the updated state", "returns %s" % [sig(x) for x in rr])
     impl = ctx.body(AP + "apply_tx_batch_impl", r)
     for bi, e in q.call_exprs(impl, "create_next_state"):
-        r.check(sig(e) == "applytx::create_next_state($1, $2, try(applytx::load_relevant_coins($1, $2)), UnsealedState::tip_906($1))", "callsite", "create_next_state(this.clone(), txx, relevant_coins, this.tip_906())", "called as %s" % sig(e), impl.where(bi))
+        r.check(sig(e) in ("applytx::create_next_state($1, $2, try(applytx::load_relevant_coins($1, $2)), UnsealedState::tip_906($1))",
+                           "applytx::create_next_state($1, $2, try(applytx::load_relevant_coins($1, $2)))"), "callsite", "create_next_state(this [clone], txx, relevant_coins [, this.tip_906()])", "called as %s" % sig(e), impl.where(bi))
 
 
 def r6_wellformed(ctx):
